@@ -15,9 +15,11 @@ K_SM3 = [c("avx2"), c("avx(no avx2)", "cpu.avx2=off"), c("ssse3(no avx)", "cpu.a
 def k_sm4(wrappers=("native",), full=True):
     base = [c("aesni+avx2"), c("aesni+avx", "cpu.avx2=off"), c("aesni+sse", "cpu.avx2=off,cpu.avx=off"),
             c("no-pclmul", "cpu.pclmulqdq=off"), c("no-aes(go tables)", "cpu.aes=off"),
-            c("force-aesni-block", env={"FORCE_SM4BLOCK_AESNI": "1"}), c("purego", tags=PUREGO)]
+            c("force-aesni-block", env={"FORCE_SM4BLOCK_AESNI": "1"}), c("purego", tags=PUREGO),
+            # a switch combination no CPU has but GODEBUG can select: the Go side and the assembly test the two flags independently
+            c("avx2-flag-without-avx", "cpu.avx=off")]
     if not full:
-        base = [base[0], base[1], base[4], base[6]]
+        base = [base[0], base[1], base[4], base[6], base[7]]
     out = []
     for w in wrappers:
         for b in base:
